@@ -346,11 +346,22 @@ theorem wantTransition_shift (st : DecState) (b : Body) (d : Int) : wantTransiti
   rcases b with ⟨data, len, pcm, fs, aud, mode, bw, fec⟩
   cases data <;> rfl
 
+/-- Clearing / restoring the gain around the recursive call commutes with the offset shift. -/
+theorem gain0Call_shift {d : Int} {t1 t2 : Ptr → Int → Run → Res'} (ht : TransShift d t1 t2) :
+    TransShift d (gain0Call t1) (gain0Call t2) := by
+  intro p n r
+  unfold gain0Call
+  show ((t2 p n (shiftRun d (r.setSt { r.st with decode_gain := 0 }))).1,
+        (t2 p n (shiftRun d (r.setSt { r.st with decode_gain := 0 }))).2.setSt
+          { (t2 p n (shiftRun d (r.setSt { r.st with decode_gain := 0 }))).2.st with decode_gain := r.st.decode_gain }) = _
+  rw [ht p n]
+  rfl
+
 theorem transCall_shift {d : Int} {t1 t2 : Ptr → Int → Run → Res'} (ht : TransShift d t1 t2) (b : Body) (r : Run) :
     transCall t2 (b.shift d) (shiftRun d r) = shiftRes d (transCall t1 b r) := by
   unfold transCall
-  show bindRun (t2 (transBuf r.st) (min (F5 r.st) b.audiosize) (shiftRun d r)) (fun _ r' => (Out.ret (), r')) = _
-  exact bindRun_shift' d _ _ _ _ (ht _ _ _) (fun _ _ => rfl)
+  show bindRun (gain0Call t2 (transBuf r.st) (min (F5 r.st) b.audiosize) (shiftRun d r)) (fun _ r' => (Out.ret (), r')) = _
+  exact bindRun_shift' d _ _ _ _ (gain0Call_shift ht _ _ _) (fun _ _ => rfl)
 
 /-- `frameBody` after the SILK stage. -/
 def fbTail (o : Oracle) (trans : Ptr → Int → Run → Res') (b : Body) (transition : Bool) (et : Int × Int) (r : Run) : Res' :=
